@@ -7,7 +7,7 @@ const { stable } = require('../lib/canon');
 const OPTS = JSON.stringify({ transformOn: true, optimize: false });
 const USER_VALUES = { userSlot: 'user_slot', userIsSlot: 'user_isSlot', userCreateVNode: 'user_createVNode', userFragment: 'user_Fragment', userIsVNode: 'user_isVNode' };
 
-function requests(c) { if (c.ts) return [{ src: H.renderHistory(c.items, true), ts: true, want: ['eval', 'free', 'gen'], opts: JSON.stringify({ transformOn: true, resolveType: true }) }]; return [{ src: H.renderHistory(c.items), want: ['eval', 'free', 'gen'], opts: c.pragma ? JSON.stringify({ transformOn: true, optimize: false, pragma: 'hh' }) : OPTS }]; }
+function requests(c) { if (c.ts) return [{ src: H.renderHistory(c.items, true), ts: true, want: ['eval', 'free', 'gen'], opts: JSON.stringify({ transformOn: true, resolveType: true }) }]; return [{ src: H.renderHistory(c.items), want: ['eval', 'free', 'gen'], opts: c.noeos ? JSON.stringify({ transformOn: true, optimize: true, enableObjectSlots: false, mergeProps: false }) : c.pragma ? JSON.stringify({ transformOn: true, optimize: false, pragma: 'hh' }) : OPTS }]; }
 
 function findThrows(v, path, out) {
   if (v && typeof v === 'object') {
@@ -62,6 +62,10 @@ module.exports = {
   assumptions: ['SWC resolver for the scope analysis of the re-parsed output', 'span criterion for "generated"', 'mock Vue runtime and node evaluator (strict mode, as ES modules are)'],
   prepare: async (tier) => (tier === 'thorough' ? G.skeleton(3, OPTS) : null),
   spaces: (tier, prepared) => G.spaces(tier, (items) => ({ items })).concat(tier === 'thorough' ? [G.canonicalSpace(prepared, (items) => ({ items }))] : []).concat([{
+    name: 'O:objectSlots-off-mergeProps-off-optimize',
+    bounds: { note: 'every item alone and core pairs under enableObjectSlots=false, mergeProps=false, optimize=true (helpers that are only needed under the defaults must not be declared)' },
+    *gen() { for (const it of G.ALL) yield { items: [it], noeos: true }; for (const a of G.CORE) for (const b of G.CORE) if (G.onceOk([a, b])) yield { items: [a, b], noeos: true }; },
+  }, {
     name: 'T:tsx-resolveType',
     bounds: { note: '.tsx modules with resolveType on: every TS item alone and every ordered pair of TS items (derived props/emits helpers such as mergeDefaults must be used)', items: Object.keys(H.T) },
     *gen() { const T = Object.keys(H.T).map((t) => ({ t })); for (const a of T) yield { items: [a], ts: true }; for (const a of T) for (const b of T) yield { items: [a, b], ts: true }; for (const a of T) for (const b of G.CORE) if (!(b.d && b.d === 'importFragmentAlias')) yield { items: [a, b], ts: true }; },
@@ -74,7 +78,7 @@ module.exports = {
     },
   }]),
   requests, judge,
-  *shrink(c) { for (const items of G.shrinkItems(c.items)) if (items.length) yield { items, pragma: c.pragma, ts: c.ts }; if (c.pragma) yield { items: c.items }; },
-  caseKey: (c) => G.key(c.items) + (c.pragma ? ' {pragma}' : '') + (c.ts ? ' {tsx resolveType}' : ''),
+  *shrink(c) { for (const items of G.shrinkItems(c.items)) if (items.length) yield { items, pragma: c.pragma, ts: c.ts, noeos: c.noeos }; if (c.pragma || c.noeos) yield { items: c.items }; },
+  caseKey: (c) => G.key(c.items) + (c.pragma ? ' {pragma}' : '') + (c.ts ? ' {tsx resolveType}' : '') + (c.noeos ? ' {eos=off mergeProps=off optimize}' : ''),
   depth: (c) => c.items.length,
 };
